@@ -207,6 +207,13 @@ func (fs *FS) enter(h *Handle, c *Call) *Fault {
 			fault = &f
 		}
 	}
+	if c.Op == "Close" && h != nil {
+		for o := range fs.active {
+			if o.Handle == h.ID && o.Op != "Close" {
+				fs.anomalies = append(fs.anomalies, Anomaly{Kind: "close-during-call", A: o.String(), B: c.String(), Sig: "close-during-call:" + o.Op})
+			}
+		}
+	}
 	if fs.opts.Monitor {
 		for o := range fs.active {
 			if why := Conflict(o, c); why != "" {
